@@ -35,7 +35,7 @@ inductive Term where
   | kw (s : Str) (caseless : Bool)                  -- Keyword: as `lit`, and the next character is not a word character
   | word (first rest : List (Char × Char))          -- one character of `first`, then any number of `rest`
   | quoted (q : Char)                               -- q (qq | [^q])* q
-  deriving Repr
+  deriving Repr, DecidableEq
 
 inductive G where
   | term (t : Term)
@@ -147,7 +147,7 @@ def longestLoop (rec : G → Str → Res) : List G → Str → Option (List Tok 
     | .fail => longestLoop rec gs x best
     | .diverge => .diverge
 
-/-- `Many`: `k` bounds the number of repetitions (each consumes at least one character), `fin` = end so far -/
+/-- `Many`: `k` bounds the number of repetitions (the caller's fuel), `fin` = end so far -/
 def manyLoop (rec : G → Str → Res) (skip : Str → Str) (g : G) (min max : Nat) : Nat → Str → Nat → List Tok → Res
   | 0, _, _, _ => .diverge
   | k + 1, fin, count, acc =>
@@ -179,7 +179,7 @@ def run (E : Env) : Nat → G → Str → Res
     | .seq ws gs => seqLoop (run E n) (E.skip ws) gs x x []
     | .alt gs => altLoop (run E n) gs x
     | .longest gs => longestLoop (run E n) gs x none
-    | .many ws g min max => manyLoop (run E n) (E.skip ws) g min max (x.length + 1) x 0 []
+    | .many ws g min max => manyLoop (run E n) (E.skip ws) g min max n x 0 []
     | .opt g =>
       match run E n g x with
       | .ok ts r => .ok ts r
@@ -206,6 +206,26 @@ def run (E : Env) : Nat → G → Str → Res
       | .ok _ _ => .ok [] x
       | .fail => .fail
       | .diverge => .diverge
+
+/-! ### grammars over a given set of terminals and whitespace engines -/
+mutual
+def G.wf (P : Term → Bool) (Q : Nat → Bool) : G → Bool
+  | .term t => P t
+  | .empty => true
+  | .seq ws gs => Q ws && wfList P Q gs
+  | .alt gs => wfList P Q gs
+  | .longest gs => wfList P Q gs
+  | .many ws g _ _ => Q ws && G.wf P Q g
+  | .opt g => G.wf P Q g
+  | .group g => G.wf P Q g
+  | .suppress g => G.wf P Q g
+  | .ref _ => true
+  | .notAhead g => G.wf P Q g
+  | .ahead g => G.wf P Q g
+def wfList (P : Term → Bool) (Q : Nat → Bool) : List G → Bool
+  | [] => true
+  | g :: gs => G.wf P Q g && wfList P Q gs
+end
 
 /-- `Parser._parse_once`: skip, match; with `parse_all` skip again and demand the end of the text -/
 def parseTop (E : Env) (fuel ws : Nat) (g : G) (parseAll : Bool) (x : Str) : Res :=
